@@ -1,0 +1,61 @@
+//go:build verif
+
+package apache
+
+// Contracts for the apache bridge. bytes.Buffer is a dependency: its length is a ghost
+// value ($blen) maintained by trusted contracts of Len / Reset; what is proved is that the
+// bridge adds nothing in between (same object, same length, callbacks passed through).
+
+//@ ghost $blen int
+//@ ghost $readable int
+
+//@ extern bytes.Buffer.Len
+//@   ensures ret == b.$blen && 0 <= ret
+//@   assigns \nothing
+
+//@ extern bytes.Buffer.Reset
+//@   ensures b.$blen == 0
+//@   assigns b.$blen
+
+//@ iface remoteByteBuffer.ReadableLen
+//@   results n
+//@   ensures n == self.$readable
+//@   assigns \nothing
+
+//@ func NewBufferTransport
+//@   props C19
+//@   ensures istype(ret, *bufferTransport) && region(ret) == region(buf)
+
+//@ func bufferTransport.RemainingBytes
+//@   props C19
+//@   ensures ret == uint64(p.$blen)
+
+//@ func bufferTransport.Close
+//@   props C19
+//@   ensures isnil(ret) && p.$blen == 0
+//@   assigns p.$blen
+
+//@ func NewDefaultTransport
+//@   props C19
+//@   ensures istype(rw, *bytes.Buffer) ==> istype(ret, *bufferTransport) && region(ret) == region(rw)
+//@   ensures !istype(rw, *bytes.Buffer) ==> istype(ret, defaultTransport) && same(astype(ret, defaultTransport).ReadWriter, rw)
+
+//@ func defaultTransport.RemainingBytes
+//@   props C19
+//@   ensures istype(p.ReadWriter, remoteByteBuffer) && p.ReadWriter.$readable > 0 ==> ret == uint64(p.ReadWriter.$readable)
+//@   ensures !(istype(p.ReadWriter, remoteByteBuffer) && p.ReadWriter.$readable > 0) ==> ret == 0xffffffffffffffff
+
+//@ func CheckTStruct
+//@   props C19
+//@   ensures isnil(fnCheckTStruct) ==> ret == errCheckTStructNotRegistered
+//@   ensures !isnil(fnCheckTStruct) ==> same(ret, apply(fnCheckTStruct, v))
+
+//@ func ThriftRead
+//@   props C19
+//@   ensures isnil(fnThriftRead) ==> ret == errThriftReadNotRegistered
+//@   ensures !isnil(fnThriftRead) ==> same(ret, apply(fnThriftRead, r, v))
+
+//@ func ThriftWrite
+//@   props C19
+//@   ensures isnil(fnThriftWrite) ==> ret == errThriftWriteNotRegistered
+//@   ensures !isnil(fnThriftWrite) ==> same(ret, apply(fnThriftWrite, w, v))
